@@ -111,7 +111,8 @@ def iradon_torch(
     B, A, N = sinograms.shape
 
     device = sinograms.device if device is None else device
-    theta = theta if theta is not None else torch.linspace(0, 180, steps=A, device=device)
+    # default angles exclude 180 degrees, as in scikit-image (np.linspace(0, 180, A, endpoint=False))
+    theta = theta if theta is not None else torch.arange(A, device=device) * (180.0 / A)
 
     if theta.shape[0] != A:
         raise ValueError("theta does not match number of projections")
